@@ -107,7 +107,7 @@ func cTopics(ts [][]byte) string {
 	return lib.CList(xs)
 }
 
-func CBlocks(d Decl, blocks []Block) string {
+func CBlocks(d Decl, blocks []Block, fullData bool) string {
 	var bs []string
 	for bi := range blocks {
 		b := &blocks[bi]
@@ -120,7 +120,7 @@ func CBlocks(d Decl, blocks []Block) string {
 				// the model reads only whether the data is empty (its decoding is
 				// l_scan): a non-empty data field is written as its first byte
 				data := l.Data
-				if len(data) > 1 {
+				if len(data) > 1 && !fullData {
 					data = data[:1]
 				}
 				ls = append(ls, fmt.Sprintf("mkL %d %s %s %s %s", l.Idx, cOB(l.Addr), cTopics(l.Topics), cB(data), cScan(d, l)))
@@ -187,10 +187,15 @@ func cObs(o Obs) string {
 	return fmt.Sprintf("(Ok (%s, %s))", cStrs(o.Cols), lib.CList(rs))
 }
 
-// CInsert prints one Insert case.
+// CInsert prints one Insert case.  With c.Abi the logs carry their full data and
+// the model decodes it itself (CInsertAbi).
 func CInsert(c *GCase, blocks []Block, sighash []byte, obs Obs) string {
-	return fmt.Sprintf("CInsert %s (mkC %s %d) %s %s %s", CDecl(c.Decl, sighash), cS(c.Src), c.Chain,
-		cDB(c.DB), CBlocks(c.Decl, blocks), cObs(obs))
+	ctor := "CInsert"
+	if c.Abi {
+		ctor = "CInsertAbi"
+	}
+	return fmt.Sprintf("%s %s (mkC %s %d) %s %s %s", ctor, CDecl(c.Decl, sighash), cS(c.Src), c.Chain,
+		cDB(c.DB), CBlocks(c.Decl, blocks, c.Abi), cObs(obs))
 }
 
 func CPush(d Decl, sighash []byte, addrs []string, topics [][]string) string {
